@@ -2,8 +2,8 @@ CONSTANTS
   RMax = 2
   CMax = 2
   MaxLen = 6
-  TMax = 10
-  Sample = 2000
+  TMax = 12
+  Sample = 150
 INIT Init
 NEXT Next
 VIEW View
